@@ -42,6 +42,11 @@ m = {
     "notes": "See DESIGN.md. known_findings.json lists recorded defects; seeded/ holds confirmed breaking changes used to validate the checks.",
 }
 json.dump(m, open(os.path.join(V, "MANIFEST.json"), "w"), indent=1)
+kf = {"open": [], "fixed": []}
+for f in sorted(glob.glob(os.path.join(V, "findings.d", "*.json"))):
+    frag = json.load(open(f))
+    kf["open"].extend(frag.get("open", [])); kf["fixed"].extend(frag.get("fixed", []))
+json.dump(kf, open(os.path.join(V, "known_findings.json"), "w"), indent=1)
 try:
     import jsonschema
     jsonschema.validate(m, json.load(open("/root/.vp/MANIFEST.schema.json")))
